@@ -261,6 +261,7 @@ func (w *world) containerSetter(id, nops int) {
 			if old == nil {
 				k = 3
 			} else {
+				c.Sub() // the promise object may have been created by the other setter
 				c.Descf("csetter %d: SetPromise(an earlier, unresolved promise again)", id)
 				c.S.Count("probe:promise-reinstalled")
 				wr := w.hist.Begin(c, &slot{p: old.p, alias: old})
@@ -283,6 +284,7 @@ func (w *world) containerSetter(id, nops int) {
 			wr.End(c)
 		default: // SetPromise(p), p resolved now, later or never
 			p := promise.NewPromise[int]()
+			c.Pub()
 			s := &slot{p: p}
 			r := w.drawResult(id*100 + i*10 + 5)
 			when := c.S.Plan(4)
